@@ -59,6 +59,8 @@ struct Win<'a> {
     base: usize,
     /// number of whole operand words available (inside the declared extent and the stream)
     avail: usize,
+    /// number of operand words the instruction declares (word count - 1); > avail when truncated
+    declared: usize,
     cur: usize,
 }
 
@@ -110,6 +112,11 @@ struct Ctx<'t> {
 
 fn context_literal(w: &mut Win, cx: &Ctx, type_id: u32, out: &mut Vec<AOp>) -> Result<(), Stop> {
     if w.remaining() == 0 {
+        // Two faults can coincide when the stream ends inside the declared extent right before a
+        // literal of unsupported width: the operand is missing AND its type is unsupported.
+        if w.cur < w.declared && cx.types.width(type_id) == Width::Unsupported {
+            return Err(Stop::Fault(vec![Fault::Missing, Fault::TypeUnsupported], "literal of unsupported width cut off by the end of the stream".into()));
+        }
         return Err(missing("context dependent literal"));
     }
     match cx.types.width(type_id) {
@@ -230,7 +237,8 @@ fn logical_seq(w: &mut Win, cx: &Ctx, ops: &[(K, Q)], inst: &AInst, out: &mut Ve
     for (k, q) in ops {
         match q {
             Q::One => {
-                if w.remaining() == 0 {
+                // (a typed literal decides itself what a missing word means, see context_literal)
+                if w.remaining() == 0 && *k != K::LiteralContextDependentNumber {
                     return Err(missing(crate::gram::kind_name(*k)));
                 }
                 operand(w, cx, *k, inst, out, depth)?;
@@ -299,7 +307,7 @@ pub fn refparse(bytes: &[u8]) -> RefParse {
         }
         let ri = ri.unwrap();
         let avail = std::cmp::min(wc - 1, (bytes.len() - (p + 4)) / 4);
-        let mut w = Win { bytes, base: p + 4, avail, cur: 0 };
+        let mut w = Win { bytes, base: p + 4, avail, declared: wc - 1, cur: 0 };
         let mut inst = AInst::new(opcode, None, None, vec![]);
         let cx = Ctx { types: &types, variadic_params: Default::default() };
         let mut stop: Option<Stop> = None;
@@ -353,6 +361,15 @@ pub fn refparse(bytes: &[u8]) -> RefParse {
                     for c in [Fault::Missing, Fault::Surplus] {
                         if !classes.contains(&c) {
                             classes.push(c);
+                        }
+                    }
+                    // a switch whose case list is cut off by the end of the stream: the next case literal
+                    // is missing AND (for a selector of unsupported width) of unsupported type
+                    if ri.opname == "Switch" {
+                        if let Some(AOp { kind: K::IdRef, val: AVal::W(sel) }) = inst.ops.first() {
+                            if types.width(*sel) == Width::Unsupported && !classes.contains(&Fault::TypeUnsupported) {
+                                classes.push(Fault::TypeUnsupported);
+                            }
                         }
                     }
                 }
